@@ -418,6 +418,14 @@ class _Expr(SymEval):
                 dv = self._external_default(r[1], n)
                 if dv is not self._MISSING:
                     return dv
+        if isinstance(f, ast.Attribute) and isinstance(root, ast.Name) and root.id in self.np_names and ast.unparse(f).split(".", 1)[-1] in ("polynomial.hermite.hermgauss", "polynomial.hermite_e.hermegauss", "polynomial.legendre.leggauss"):
+            deg = self.eval(n.args[0]) if n.args else None
+            if not isinstance(deg, (int, np.integer)):
+                raise NotSymbolic("quadrature rule of non-constant degree")
+            mod_ = np.polynomial
+            for part in ast.unparse(f).split(".")[2:]:
+                mod_ = getattr(mod_, part)
+            return tuple(mod_(int(deg)))  # numeric nodes and weights
         if isinstance(f, ast.Attribute) and isinstance(f.value, ast.Attribute) and f.value.attr == "linalg" and isinstance(root, ast.Name) and root.id in self.np_names:
             from .symarr import ProgramError
 
@@ -840,10 +848,35 @@ class AccessorEval:
     def get(self, rec: Rec, name):
         if name in rec.fields:
             return rec.fields[name]
-        g = (rec.cls or self.cls).getters.get(name)
+        ci = rec.cls or self.cls
+        g = ci.getters.get(name)
         if g is not None:
             return self.run(g, rec, {})
-        raise NotSymbolic(f"{(rec.cls or self.cls).name} has no field or property {name}")
+        # a class-level attribute set by a plain assignment in the class body (evaluated once per evaluator, in order)
+        cache = self.__dict__.setdefault("_class_attrs", {})
+        if ci.qualname not in cache:
+            local = {}
+            saved = getattr(self, "module", None)
+            self.module = ci.module
+            try:
+                for st in ci.node.body:
+                    if isinstance(st, ast.Assign) and all(isinstance(t, (ast.Name, ast.Tuple)) for t in st.targets):
+                        try:
+                            self._stmt(st, local)
+                        except NotSymbolic:
+                            for t in st.targets:
+                                for x in ast.walk(t):
+                                    if isinstance(x, ast.Name):
+                                        local[x.id] = ("<unevaluated>", ast.unparse(st.value)[:60])
+            finally:
+                self.module = saved
+            cache[ci.qualname] = local
+        if name in cache[ci.qualname]:
+            v = cache[ci.qualname][name]
+            if isinstance(v, tuple) and len(v) == 2 and v[0] == "<unevaluated>":
+                raise NotSymbolic(f"class attribute {ci.name}.{name} = {v[1]} is outside the whitelist")
+            return v
+        raise NotSymbolic(f"{ci.name} has no field or property {name}")
 
     def set(self, rec: Rec, name, value):
         if (rec.cls or self.cls) is None:  # a plain object (e.g. a function that gets attributes attached)
